@@ -59,6 +59,18 @@ func (i *interpreter) zvCall(fr *frame, fn *ssa.Function, args []value) value {
 	case "SameFloat":
 		x, y := i.term(args[0]), i.term(args[1])
 		return mkScalar(b.Eq(x, y), types.Bool)
+	case "StringTable":
+		name := strArg(args[0])
+		keys := i.world.stringTable(name)
+		if i.path.Tables == nil {
+			i.path.Tables = map[string][]string{}
+		}
+		i.path.Tables[name] = keys
+		out := make([]value, len(keys))
+		for k, s := range keys {
+			out[k] = s
+		}
+		return out
 	case "Symbolic":
 		return true
 	case "Tier":
